@@ -626,6 +626,43 @@ def audit5_cases(chk):
                 violation('hand-written U{0: u32 a; 1: u16 b}', 'discriminator = ' + name, 'a rejected assignment changed the union', state=str(u))
         except Exception as ex:  # noqa
             violation('hand-written U{0: u32 a; 1: u16 b}', 'discriminator = ' + name, 'rejected with %s instead of ProphyError' % py_impl.exc_class(ex))
+    # D184: a rejected discriminator whose repr cannot be written
+    u = Ux()
+    for how, call in (('discriminator = Fraction(10**5000, 3)', lambda: setattr(u, 'discriminator', fractions.Fraction(10 ** 5000, 3))),):
+        case(('discriminator-repr', how))
+        try:
+            call()
+            violation('hand-written U{0: u32 a; 1: u16 b}', how, 'accepted')
+        except prophy.ProphyError:
+            pass
+        except Exception as ex:  # noqa
+            violation('hand-written U{0: u32 a; 1: u16 b}', how, 'rejected with %s instead of ProphyError' % py_impl.exc_class(ex))
+    # D183: add(**fields) takes field names only
+    I = type(sb)('I5', (sb,), {'_descriptor': [('x', prophy.u8)]})
+    O = type(sb)('O5', (sb,), {'_descriptor': [('x', prophy.u32), ('y', prophy.u32)]})
+    H = type(sb)('H5', (sb,), {'_descriptor': [('n', prophy.u8), ('items', prophy.array(I, bound='n')), ('us', prophy.array(Ux, bound='n'))]})
+    for how, arr, kw in (("items.add(_fields={'x': 999})", 'items', {'_fields': {'x': 999}}), ('items.add(_fields=3)', 'items', {'_fields': 3}),
+                         ('items.add(__class__=Other)', 'items', {'__class__': O}), ('us.add(_discriminated=None)', 'us', {'_discriminated': None}),
+                         ('items.add(discriminator=1)', 'items', {'discriminator': 1}), ('items.add(nope=1)', 'items', {'nope': 1})):
+        case(('add-keyword', how))
+        h = H()
+        try:
+            getattr(h, arr).add(**kw)
+            try:
+                h.encode('<')
+                ok = all(type(e) in (I, Ux) for e in list(h.items) + list(h.us))
+            except Exception:  # noqa
+                ok = False
+            if not ok:
+                violation('hand-written I{u8 x}; H{u8 n; I items<@n>; U us<@n>}', how, 'accepted: the message does not encode any more or holds an element of another class')
+        except (prophy.ProphyError, AttributeError):
+            if len(h.items) or len(h.us):
+                violation('hand-written I{u8 x}; H{u8 n; I items<@n>; U us<@n>}', how, 'a rejected add() left an element in the array')
+    h = H()
+    h.us.add(discriminator=1, b=7)
+    h.items.add(x=5)
+    if str(h) != 'items {\n  x: 5\n}\nus {\n  b: 7\n}\n':
+        violation('hand-written H', 'us.add(discriminator=1, b=7); items.add(x=5)', 'add() with field names does not set them', state=str(h))
     u = Ux()
     u.discriminator = True                                   # a bool is the integer 1
     if u.discriminator != 1:
